@@ -454,6 +454,10 @@ class SpecEval:
         if name == 'typetag':
             ty = resolve_type(w, self.type_from_ast(args[0]), self.pkg)
             return SV(z3.IntVal(w.tag(ty)), 'int')
+        if name == 'parsesfloat':
+            # parsesfloat(s): strconv.ParseFloat(s, 64) succeeds (the same uninterpreted predicate as the model of ParseFloat)
+            v = self.ev(args[0])
+            return SV(w.uf('strconv_ParseFloat_ok', w.Str, z3.BoolSort())(v.t), 'bool')
         if name == 'toint':
             v = self.ev(args[0])
             x = v.t
